@@ -24,6 +24,96 @@ fn serialise_cmd(c: &Cmd) -> Cmd {
     n
 }
 
+/// Targets that share their stem and differ in the extension matched by their
+/// default rule (`foo.a` from default.a.do, `foo.b` from default.b.do, `foo`
+/// from foo.do), built side by side: whatever is derived from the names ($2,
+/// the temporary output file, the log) must not collide.
+fn same_stem_case(rng: &mut Rng, seed: u64) -> Case {
+    let exts = ["a", "b", "c.d"];
+    let stems = ["foo", "bar"];
+    let mut rules: Vec<(String, Rule)> = Vec::new();
+    let out = |rng: &mut Rng| -> Stmt {
+        Stmt::Out {
+            mode: match rng.below(3) {
+                0 => OutMode::Stdout,
+                1 => OutMode::File,
+                _ => OutMode::Append,
+            },
+            pad: *rng.pick(&[0usize, 100, 5000]),
+        }
+    };
+    for e in exts.iter() {
+        let mut st = vec![out(rng), Stmt::IfChange(vec!["s0".into()])];
+        if rng.chance(2, 3) {
+            st.push(Stmt::Work(rng.range(1, 60)));
+        }
+        rules.push((format!("default.{}.do", e), Rule { version: 0, stmts: st }));
+    }
+    let mut targets: Vec<String> = Vec::new();
+    for s in stems.iter() {
+        for e in exts.iter() {
+            if rng.chance(3, 4) {
+                targets.push(format!("{}.{}", s, e));
+            }
+        }
+        if rng.chance(1, 2) {
+            // the bare stem with a rule of its own
+            let mut st = vec![out(rng), Stmt::IfChange(vec!["s0".into()])];
+            if rng.chance(1, 2) {
+                st.push(Stmt::Work(rng.range(1, 60)));
+            }
+            rules.push((format!("{}.do", s), Rule { version: 0, stmts: st }));
+            targets.push(s.to_string());
+        }
+    }
+    if targets.len() < 2 {
+        targets = vec!["foo.a".into(), "foo.b".into()];
+    }
+    rng.shuffle(&mut targets);
+    rules.push((
+        "top.do".into(),
+        Rule {
+            version: 0,
+            stmts: vec![Stmt::IfChange(targets.clone())],
+        },
+    ));
+    let mut sc = Scenario {
+        family: "c07-same-stem".into(),
+        files: vec![("s0".to_string(), source_content("s0", 0))],
+        rules,
+        ..Default::default()
+    };
+    let ts = if rng.chance(1, 2) { vec!["top".to_string()] } else { targets };
+    let mut c = redo_cmd(rng, "redo", &ts, 1, 300);
+    c.argv.retain(|a| !a.starts_with("-j"));
+    c.argv.insert(1, format!("-j{}", rng.range(2, 6)));
+    sc.history.push(Step::Cmds(vec![c]));
+    if rng.chance(1, 2) {
+        sc.history.push(Step::Write {
+            path: "s0".into(),
+            bytes: source_content("s0", 1),
+        });
+        let mut c = redo_cmd(rng, "redo-ifchange", &ts_or_top(&sc), 1, 300);
+        c.make_tokens = Some(rng.range(1, 4) as u32);
+        sc.history.push(Step::Cmds(vec![c]));
+    }
+    Case {
+        property: "C07".into(),
+        seed,
+        scenario: sc,
+        knobs: Knobs::draw(rng),
+        opts: PlayOpts::default(),
+        meta: BTreeMap::new(),
+    }
+}
+
+fn ts_or_top(sc: &Scenario) -> Vec<String> {
+    match sc.history.first() {
+        Some(Step::Cmds(v)) => v[0].targets(),
+        _ => vec!["top".into()],
+    }
+}
+
 /// The shape in which job tokens are given up, taken by others and "cheated"
 /// (C08's cheat-prone family): several scripts share one slow target while
 /// other jobs hold the remaining tokens for long, with log capture on.  The
@@ -107,7 +197,7 @@ impl Property for C07 {
     fn rule(&self) -> &'static str {
         "one top-level redo / redo-ifchange (-j1..8, --shuffle on/off, random simulated script \
          durations) on diamonds, chains, fans with shared checksummed and always targets, optionally \
-         after a first build and an edit; every eighth scenario is the token-cheating shape of C08 (shared \
+         after a first build and an edit; every eighth scenario has targets that share a stem under different default rules (foo.a, foo.b, foo), every eighth is the token-cheating shape of C08 (shared \
          slow target, long-running siblings, log capture on); oracle: at most one do-begin per target per invocation, and \
          final bytes (noise stripped), exit status and structural DB view (Deps edges, \
          generated/override/failed/checksummed flags) equal those of the same history replayed with the \
@@ -117,6 +207,9 @@ impl Property for C07 {
     fn generate(&self, rng: &mut Rng, seed: u64, _tier: Tier, index: u64) -> Case {
         if index % 8 == 7 {
             return cheat_prone_case(rng, seed);
+        }
+        if index % 8 == 3 {
+            return same_stem_case(rng, seed);
         }
         let mut p = GraphParams::small(rng);
         p.n_targets = rng.range(3, 8) as usize;
